@@ -49,6 +49,27 @@ def _body(text, name):
     return text[m.end():i - 1]
 
 
+def _functions(text):
+    """(name, body) of every top-level function definition of a (comment-stripped) C file."""
+    out, depth, start, last = [], 0, 0, 0
+    for i, ch in enumerate(text):
+        if ch == "{":
+            if depth == 0:
+                start = i
+                header = text[last:i]
+            depth += 1
+        elif ch == "}":
+            depth -= 1
+            if depth == 0:
+                m = re.search(r"(\w+)\s*\([^()]*(?:\([^()]*\)[^()]*)*\)\s*$", header)
+                if m and not re.search(r"\b(struct|enum|union)\b[^()]*$", header) and "=" not in header.split("(")[0]:
+                    out.append((m.group(1), text[start + 1:i]))
+                last = i + 1
+        elif ch == ";" and depth == 0:
+            last = i + 1
+    return out
+
+
 def _mask(expr, consts):
     """Value of `A|B|C` over known constants; None when something else occurs."""
     v = 0
@@ -142,6 +163,29 @@ def run(ctx):
     term_ref = emitters_hold_ref("src/term.c", "tickit_term", ["tickit_term_set_size", "tickit_term_emit_key", "tickit_term_emit_mouse",
                                                                   "tickit_term_input_push_bytes", "tickit_term_input_readable"])
 
+    # window.c as a client of the terminal's bindings: what the root window binds, which functions bind and unbind
+    try:
+        wsrc = strip(src("src/window.c"))
+    except OSError:
+        wsrc = ""
+    wfuncs = _functions(wsrc)
+    bind_sites = [n for n, body in wfuncs if "tickit_term_bind_event(" in body]
+    unbind_sites = [n for n, body in wfuncs if "tickit_term_unbind_event_id(" in body]
+    root_binds, root_bind_idx, root_unbind_idx = [], [], []
+    for n, body in wfuncs:
+        for m in re.finditer(r"event_ids\[(\d+)\]\s*=\s*tickit_term_bind_event\(\s*\w+\s*,\s*(\w+)\s*,\s*([\w|\s]+?)\s*,", body):
+            evn, fl = m.group(2), m.group(3).strip()
+            flv = 0 if fl == "0" else _mask(fl, consts)
+            if evn not in evs or flv is None:
+                miss.append("root-bind:" + evn + ":" + fl)
+                continue
+            root_binds.append((evs[evn], flv)); root_bind_idx.append(int(m.group(1)))
+        for m in re.finditer(r"tickit_term_unbind_event_id\(\s*[\w>-]+\s*,\s*\w+->event_ids\[(\d+)\]\s*\)", body):
+            root_unbind_idx.append(int(m.group(1)))
+    n_unbind_calls = len(re.findall(r"tickit_term_unbind_event_id\(", wsrc))
+    if n_unbind_calls != len(root_unbind_idx):
+        miss.append("root-unbind-calls:%d/%d" % (len(root_unbind_idx), n_unbind_calls))
+
     def b(x):
         return "true" if x else "false"
 
@@ -150,7 +194,8 @@ def run(ctx):
               "TICKIT_EV_FIRE", "TICKIT_EV_UNBIND", "TICKIT_EV_DESTROY"):
         body += f"def {k} : Nat := {need(consts, k)}\n"
     for k in ("TICKIT_PEN_ON_DESTROY", "TICKIT_PEN_ON_CHANGE", "TICKIT_TERM_ON_DESTROY", "TICKIT_TERM_ON_RESIZE",
-              "TICKIT_TERM_ON_KEY", "TICKIT_TERM_ON_MOUSE", "TICKIT_WINDOW_ON_DESTROY"):
+              "TICKIT_TERM_ON_KEY", "TICKIT_TERM_ON_MOUSE", "TICKIT_WINDOW_ON_DESTROY", "TICKIT_WINDOW_ON_GEOMCHANGE",
+              "TICKIT_WINDOW_ON_EXPOSE", "TICKIT_WINDOW_ON_FOCUS", "TICKIT_WINDOW_ON_KEY", "TICKIT_WINDOW_ON_MOUSE"):
         body += f"def {k} : Int := {need(evs, k)}\n"
     body += f"def BINDING_ID_TOMBSTONE : Int := {tomb}\n"
     body += f"/-- `flags & (...)` kept by bind_event -/\ndef keptMask : Nat := {kept or 0}\n"
@@ -167,6 +212,14 @@ def run(ctx):
     body += "/-- the emitters of pen.c / term.c hold a reference on the owner while its handlers run -/\n"
     body += f"def penEmitterRef : Bool := {b(pen_ref)}\n"
     body += f"def termEmitterRef : Bool := {b(term_ref)}\n"
+    body += "/-- window.c as a client of the terminal's bindings: (event, flags) of the handlers `root->event_ids[i] = tickit_term_bind_event(…)`\n"
+    body += "    binds, the indices `i` in source order, the indices handed to `tickit_term_unbind_event_id` in source order, and the\n"
+    body += "    functions of window.c that call `tickit_term_bind_event` / `tickit_term_unbind_event_id` -/\n"
+    body += "def rootBinds : List (Int × Nat) := [" + ", ".join("(%d, %d)" % x for x in root_binds) + "]\n"
+    body += "def rootBindIdx : List Nat := [" + ", ".join(str(x) for x in root_bind_idx) + "]\n"
+    body += "def rootUnbindIdx : List Nat := [" + ", ".join(str(x) for x in root_unbind_idx) + "]\n"
+    body += "def rootBindSites : List String := [" + ", ".join('"%s"' % x for x in bind_sites) + "]\n"
+    body += "def rootUnbindSites : List String := [" + ", ".join('"%s"' % x for x in unbind_sites) + "]\n"
     body += "end Tickit.Gen.Bindings\n"
     write("Bindings", body)
     info["bindings"] = {"consts": consts, "tombstone": tomb, "kept_mask": kept, "unbind_test": unb_test, "destroy_test": des_test,
